@@ -134,3 +134,43 @@ package config
 //@ env [mapstructure-passes-the-type-of-the-data] imp(f.Kind() == reflect.String, typeis(data, string))
 //@ ensures [other-values-pass-through] imp(f.Kind() != reflect.String, result0 == data && result1 == nil)
 //@ ensures [bad-size-is-an-error] imp(calls(size.UnmarshalText) == 1, result1 == result_of(size.UnmarshalText, 0))
+
+// ---------------------------------------------------------------- the hook list: additions go to the end (after the placeholder hook) and force a recompile
+
+//@ func addHook
+//@ props C17
+//@ ensures [appended-after-the-existing-hooks] len(hooks) == old(len(hooks)) + 1 && hooks[len(hooks)-1] == hook && forall(k, 0, old(len(hooks)), hooks[k] == old(hooks)[k])
+//@ ensures [recompiled-before-the-next-decode] hooksNeedCompile
+//@ modifies hooks, hooksNeedCompile
+
+//@ func onHooksModify
+//@ props C17
+//@ ensures hooksNeedCompile
+//@ modifies hooksNeedCompile
+
+//@ func SetHooks
+//@ props C17
+//@ ensures [replaced-and-recompiled-before-the-next-decode] hooks == h && hooksNeedCompile
+//@ modifies hooks, hooksNeedCompile
+
+//@ func GetHooks
+//@ props C17
+//@ modifies nothing
+//@ ensures result == hooks
+
+//@ func AddTypeHook
+//@ props C17
+//@ at call addHook assert [the-given-hook] arg(hook) == box(hook0)
+//@ ensures calls(addHook) == 1
+
+//@ func AddKindHook
+//@ props C17
+//@ at call addHook assert [the-given-hook] arg(hook) == box(hook0)
+//@ ensures calls(addHook) == 1
+
+// The composed hook is rebuilt from the current list whenever the list changed since the last decode.
+//@ func compileHooks
+//@ props C17
+//@ ensures [compiled-from-the-current-list] !hooksNeedCompile && imp(old(hooksNeedCompile), calls(mapstructure.ComposeDecodeHookFunc) == 1 && compiledHook == result_of(mapstructure.ComposeDecodeHookFunc, 0)) && imp(!old(hooksNeedCompile), compiledHook == old(compiledHook))
+//@ at call mapstructure.ComposeDecodeHookFunc assert [all-current-hooks-in-order] arg(fs) == hooks
+//@ modifies hooksNeedCompile, compiledHook
